@@ -24,15 +24,17 @@ def handle (op : String) (j : Json) : Except String Json := do
   match op with
   | "package" =>
     let p0 ← Hdl21.Drv.Sem.parsePackage (← j.getObjVal? "pkg")
+    -- which layout the exporter at hand writes (read off a probe module by the harness): ports' signals first, or last
+    let pf := match j.getObjVal? "ports_first" with | .ok (.bool b) => b | _ => false
     -- harness/observe.py writes the direction names in lower case
     let p : Package := { p0 with modules := p0.modules.map fun m => { m with ports := m.ports.map fun (n, d) => (n, d.toUpper) } }
     let rec go (earlier : List PModule) : List PModule → List Json
       | [] => []
       | m :: rest =>
         let ctx : PRef → Option (List String) := fun r => (targetPorts p earlier r).map (·.map (·.1))
-        let shape := Shape ctx m
+        let shape := if pf then ShapePF ctx m else Shape ctx m
         let imp := match importModule ctx m with
-          | .ok h => Json.mkObj [("ok", modJson h), ("export_back", match exportModule h with
+          | .ok h => Json.mkObj [("ok", modJson h), ("export_back", match (if pf then exportModulePF h else exportModule h) with
               | .ok q => Json.bool (q.signals == m.signals && q.ports == m.ports && q.instances.length == m.instances.length)
               | .error _ => Json.str "error")]
           | .error e => Json.mkObj [("error", e)]
